@@ -116,17 +116,8 @@ UNITS.append(dict(name="c12_update_unbounded", template="C12/pdf_update_unb.c", 
                   flags=["--bounds-check", "--pointer-check", "--no-malloc-may-fail", "--object-bits", "12"], timeout=600, level="proof", bound="n <= 65535 elements (17 rows), unbounded in the loop",
                   canaries=[dict(name="update_skips_root", where="body:update", rx=r"row < tree__size;", repl="row + 1 < tree__size;", props=[r"postcondition\.1$", r"loop_invariant"], timeout=300)]))
 
-SMP_LOOP = """
-__CPROVER_assigns(row, node, x_)
-__CPROVER_loop_invariant(row < tree__size && tree__size == __CPROVER_loop_entry(tree__size) && node < ((size_t)1 << (tree__size - 1 - row)))
-__CPROVER_loop_invariant(node == ANC(row) ==> (node < tree_rowsize[row] && x_ <= tree_[row][node] && x_ + P[row] == X0 && P[row] <= X0 && (x_ > 0 || node == 0)))
-__CPROVER_decreases(row)
-"""
-UNITS.append(dict(name="c12_sample_unbounded", template="C12/pdf_sample_unb.c", functions=["ompl::PDF::sample"],
-                  sources=[dict(name="sample", file=PDF, sig=r"_T &sample\s*\(double r\)\s*const", rules=[(r'throw Exception\("[^"]*"\);', "{ EXC(); return 0; }", 0)] + PDF_RULES, loops={1: SMP_LOOP})],
-                  enforce=["pdf_sample"], replace=[], backend="cvc5", split="per-property", split_groups=[r"\.bounds\.|\.pointer|\.overflow\.|\.conversion", r"\.assigns\.|loop_assigns"],
-                  flags=["--bounds-check", "--pointer-check", "--no-malloc-may-fail", "--object-bits", "12"], timeout=600, level="proof", bound="n <= 65535 elements (17 rows), unbounded in the loop",
-                  canaries=[dict(name="tie_goes_right", where="body:sample", rx=r"x_ > tree_", repl="x_ >= tree_", props=[r"postcondition", r"loop_invariant", r"assertion"], timeout=300)]))
+# (an unbounded proof of PDF::sample along the same lines was attempted -- design-probes/pdf_sample_unbounded/ -- 250 of 255 obligations discharged, the
+# invariant step and the postcondition did not finish in 10 minutes on cvc5 or z3-new; not registered, sample() stays bounded)
 
 # ---------------------------------------------------------------- a PDF owner: AtlasStateSpace::clear keeps chartPDF_ in step with the charts
 UNITS.append(dict(name="c12_user_atlas_clear", template="C12/atlas_clear.c", mode="plain", entry="h_atlas_clear", flags=["--bounds-check", "--pointer-check", "--unsigned-overflow-check"], unwind=5, level="bounded", bound="<= 3 anchor charts",
